@@ -328,7 +328,10 @@ Definition fn_okb (d : delta) (a : app) (s : graph) (ov : option string) (cmap :
   | Some q, Some o =>
     (* the body is the matched nodes in graph order behind the copied constants, and the call node carries the overload *)
     list_eqb node_eqb (fq_body q) (fn_body cmap cattrs (sel (a_mask a) (g_nodes s))) &&
-    list_eqb String.eqb (fq_used q) (map n_dom (sel (a_mask a) (g_nodes s))) &&
+    (* used_domains: the domains of the matched nodes (of the whole body with
+       proposed_fixes/C07_as_function_constant_default_domain_import.diff) *)
+    (list_eqb String.eqb (fq_used q) (map n_dom (sel (a_mask a) (g_nodes s))) ||
+     list_eqb String.eqb (fq_used q) (map n_dom (fq_body q))) &&
     match a_new a with
     | [c] => String.eqb (n_op c) (fq_name q ++ ":" ++ o)%string && String.eqb (n_dom c) (fq_dom q)
     | _ => false
